@@ -621,23 +621,11 @@ class State:
         if va is None:
             return False, "validate_arity missing"
         vo = Origins(va, self.lib)
+        from .c06 import arity_outcomes
         for delta in (-1, 1):
-            def atom(t, delta=delta):
-                return 5 + delta if t == ("param", 2) else None
-
-            def call(t, argvals):
-                if t[1].endswith("::len") and t[2][0] == fs({("field", ("param", 1), "inputs")}):
-                    return 5
-                if t[1] == "std::option::Option::<T>::is_some" and t[2][0] == fs({("field", ("param", 1), "variadic")}):
-                    return 0
-                if t[1] == "std::option::Option::<T>::is_none" and t[2][0] == fs({("field", ("param", 1), "variadic")}):
-                    return 1
-                return None
-            w = Walker(va, vo, atom=atom, call=call)
             try:
-                for path, leaf in w.walk():
-                    if "Ok" in classify_arity_result(w.result_on_path(path)):
-                        return False, "validate_arity accepts actual != expected for a fixed signature"
+                if any("Ok" in x for x in arity_outcomes(self.lib, va, vo, 0, delta)):
+                    return False, "validate_arity accepts actual != expected for a fixed signature"
             except Undecided:
                 return False, "validate_arity undecidable"
         return True, ""
